@@ -24,6 +24,8 @@ pub enum Variant {
     Nosep,
     /// as Dbg but without the macro_sep feature
     DbgNosep,
+    /// as Rel (optimized, no debug assertions) but with arithmetic overflow checks
+    Ovf,
 }
 impl Variant {
     pub fn name(self) -> &'static str {
@@ -32,9 +34,10 @@ impl Variant {
             Variant::Rel => "rel",
             Variant::Nosep => "nosep",
             Variant::DbgNosep => "dbgnosep",
+            Variant::Ovf => "ovf",
         }
     }
-    pub const ALL: [Variant; 4] = [Variant::Dbg, Variant::Rel, Variant::Nosep, Variant::DbgNosep];
+    pub const ALL: [Variant; 5] = [Variant::Dbg, Variant::Rel, Variant::Nosep, Variant::DbgNosep, Variant::Ovf];
 }
 
 #[derive(Debug, Clone, Copy, PartialEq)]
@@ -422,14 +425,22 @@ adapter!(dump_dbg, sas_lexer_dbg);
 adapter!(dump_rel, sas_lexer_rel);
 adapter!(dump_nosep, sas_lexer_nosep);
 adapter!(dump_dbgnosep, sas_lexer_dbgnosep);
+adapter!(dump_ovf, sas_lexer_ovf);
 
 /// Lex `src` with the given variant. Never panics, never hangs (iteration budget of the hook).
 pub fn lex(v: Variant, src: &str) -> Lexed {
+    crate::runner::lex_enter();
+    let r = lex_inner(v, src);
+    crate::runner::lex_leave();
+    r
+}
+fn lex_inner(v: Variant, src: &str) -> Lexed {
     match v {
         Variant::Dbg => guarded(|| dump_dbg(src)),
         Variant::Rel => guarded(|| dump_rel(src)),
         Variant::Nosep => guarded(|| dump_nosep(src)),
         Variant::DbgNosep => guarded(|| dump_dbgnosep(src)),
+        Variant::Ovf => guarded(|| dump_ovf(src)),
     }
 }
 
